@@ -89,6 +89,15 @@ def modelAlternatives (ranges : List (Nat × Nat)) (nItems : Nat) : Option (List
     let omits := genOmits a (a.size + 2) (Array.replicate a.size false) 0
     some ((omits.map (keptItems a nItems)).filter (fun k => !k.isEmpty))
 
+/-- A version of the rule is a rule only if it keeps at least one item that the rule modifies (an optional group of the
+    context may hold the only `_`); the all-context versions are not generated (warning 1521), just as the version
+    with no items at all is not (warning 1511). `mods j` = item `j` is a modified item. -/
+def isRuleVersion (mods : List Bool) (kept : List Nat) : Bool :=
+  kept.any fun j => mods.getD j false
+
+theorem isRuleVersion_nonempty (mods : List Bool) (kept : List Nat) (h : isRuleVersion mods kept = true) : kept ≠ [] := by
+  intro hk; subst hk; simp [isRuleVersion] at h
+
 /-- New 1-based index of original 0-based item `j` in the alternative that keeps `kept` (none = omitted). -/
 def newIndex (kept : List Nat) (j : Nat) : Option Nat :=
   let i := kept.idxOf j
